@@ -332,3 +332,7 @@ G("ren-rst-option", ALLP, (RW, "option", "opt"), all=True, word=True)
 G("ren-cfg-input-dict", ALLP, (CFG, "input_dict", "validated"), all=True, word=True)
 
 VARIANTS = [v for v in VARIANTS if v is not None]
+
+# ------------------------------------------------------------------ round 6
+G("r6-token-local-text", ["C04", "C01", "C12", "C07"], (AGG, "        text = ctx.Module_docstring().getText()", "        docstring_token = ctx.Module_docstring().symbol\n        text = docstring_token.text"))
+B("r6-token-column-prefix", "C04", "C04-R2", (AGG, "        text = ctx.Module_docstring().getText()", "        docstring_token = ctx.Module_docstring().symbol\n        text = \" \" * docstring_token.column + docstring_token.text"))
